@@ -38,12 +38,19 @@ enum { KU_DIGSIG = 1 << 0, KU_KEYENC = 1 << 2, KU_CERTSIGN = 1 << 5, KU_CRLSIGN 
 enum { EKU_SERVER = 1, EKU_CLIENT = 2, EKU_CODESIGN = 3 };
 enum { BC_ABSENT = 0, BC_FALSE = 1, BC_TRUE = 2 };
 enum { SIGOP_NONE = 0, SIGOP_FLIPBIT = 1, SIGOP_REPLACE = 2, SIGOP_OUTER_ALG = 3 };
+enum { T_AUTO = 0, T_UTC = 1, T_GEN = 2 };
+// libcrypto's reading of a UTCTime/GeneralizedTime string (ASN1_TIME_to_tm, which applies the RFC 5280 two-digit-year rule):
+// true and *epoch set when libcrypto can interpret it.  Used only to cross-check the model's own interpretation.
+bool time_to_epoch(int enc, const std::string &str, int64_t *epoch);
 
 struct CertSpec {
     int version = 3;                  // 3 or 1
     Bytes serial;                     // big-endian magnitude (positive)
     Name subject, issuer;
-    int64_t notBefore = 0, notAfter = 0;   // absolute epoch seconds
+    int64_t notBefore = 0, notAfter = 0;   // absolute epoch seconds (encoded per RFC 5280: UTCTime through 2049, else GeneralizedTime)
+    // forced encodings: T_AUTO = use the epoch value above; otherwise the given characters are emitted verbatim with that tag
+    int notBeforeEnc = 0, notAfterEnc = 0;
+    std::string notBeforeStr, notAfterStr;
     int subjectKey = 0;               // pool index of the certified key
     int signKey = 0;                  // pool index of the signing key
     Hash hash = H_SHA256;             // ignored for Ed25519 signers
@@ -71,6 +78,7 @@ int verify_cert(const Bytes &der, int k);
 struct CrlSpec {
     Name issuer;
     int64_t thisUpdate = 0, nextUpdate = 0;
+    int nextEnc = 0; std::string nextStr;      // forced nextUpdate encoding (T_*)
     std::vector<Bytes> revoked;       // serial numbers
     int signKey = 0; Hash hash = H_SHA256;
     bool aki = false; Bytes akiValue;
